@@ -101,19 +101,31 @@ func (p *SingleFlightProvider) GetSignInURL(redirectURI, finalRedirect string) s
 // RefreshSessionIfNeeded wraps the provider's RefreshSessionIfNeeded function in a single flight
 // call.
 func (p *SingleFlightProvider) RefreshSessionIfNeeded(s *sessions.SessionState) (bool, error) {
+	type result struct {
+		ok       bool
+		from     *sessions.SessionState
+		token    string
+		deadline time.Time
+	}
 	response, err := p.do("RefreshSessionIfNeeded", s.RefreshToken, func() (interface{}, error) {
-		return p.provider.RefreshSessionIfNeeded(s)
+		ok, err := p.provider.RefreshSessionIfNeeded(s)
+		if err != nil {
+			return nil, err
+		}
+		return &result{ok, s, s.AccessToken, s.RefreshDeadline}, nil
 	})
 	if err != nil {
 		return false, err
 	}
 
-	r, ok := response.(bool)
+	r, ok := response.(*result)
 	if !ok {
 		return false, ErrUnexpectedReturnType
 	}
-
-	return r, nil
+	if r.ok && r.from != s {
+		s.AccessToken, s.RefreshDeadline = r.token, r.deadline
+	}
+	return r.ok, nil
 }
 
 // ValidateGroupMembership wraps the provider's GroupsResource function in a single flight call.
